@@ -119,6 +119,7 @@ def plan(tier, seed):
     nv, nt = len(values()), len(types())
     units = [{'kind': 'matching', 'part': q, 'parts': 16} for q in range(16)]
     units += [{'kind': 'subtyping', 'part': q, 'parts': 16} for q in range(16)]
+    units += [{'kind': 'treat-expressions', 'ver': v} for v in ('2.0', '3.0', '3.1')]
     units += [{'kind': 'signatures', 'ver': v, 'part': q, 'parts': 16} for v in ('2.0', '3.1') for q in range(16)]
     return {
         'units': units,
@@ -181,6 +182,69 @@ def value_class(descs, label=''):
         return 'function:' + label.split('{')[0].strip()[:40]
     kinds = sorted(set(d[0] if d[0] != 'node' else 'node:' + d[1] for d in descs))
     return ('pair:' if len(descs) > 1 else '') + '+'.join(kinds)
+
+
+TREAT_MEMBERS = ['b', 'c', 'b/c', '@id', '.', 'text()', '1', 'name(.)', '()', '*', '(b, c)']
+TREAT_TYPES = ['item()', 'item()?', 'item()+', 'item()*', 'node()', 'node()+', 'node()*', 'element()', 'element()?', 'element()+', 'element()*', 'attribute()?', 'text()*',
+               'xs:anyAtomicType+', 'xs:integer', 'xs:string*', 'empty-sequence()', 'element(b)+', 'element(c)*']
+
+
+def run_treat_expressions(unit, tier, acc):
+    """`E treat as T` / `E instance of T` where E is a sequence CONSTRUCTOR whose members depend on the focus (the operand is evaluated
+    lazily by the 2.0 parser): the result is exactly the sequence of the members evaluated one by one, or XPDY0050, as the judgement
+    on that sequence passed in a variable says (that judgement is the one compared with the reference model by the matching units)"""
+    import xml.etree.ElementTree as ET
+    from elementpath import XPathContext, XPath2Parser, ElementPathError
+    from elementpath.xpath30 import XPath30Parser
+    from elementpath.xpath31 import XPath31Parser
+    ver = unit['ver']
+    p = {'2.0': XPath2Parser, '3.0': XPath30Parser, '3.1': XPath31Parser}[ver]()
+    root = XPathContext(ET.fromstring('<a id="i"><b><c/></b><c/>t<b/></a>')).root      # one node tree for every evaluation (node identity)
+    toks = {}
+
+    def run(src, **v):
+        try:
+            t = toks.get(src)
+            if t is None:
+                t = toks[src] = p.parse(src)
+            r = t.evaluate(XPathContext(root=root, variables=v))
+            return ('val', r if isinstance(r, list) else [r])
+        except ElementPathError as e:
+            return ('err', (e.code or '').split(':')[-1])
+        except Exception as e:  # noqa
+            return ('escape', type(e).__name__ + ': ' + str(e)[:60])
+    single = {m: run(m) for m in TREAT_MEMBERS}
+    for m1, m2 in itertools.product(TREAT_MEMBERS, repeat=2):
+        if single[m1][0] != 'val' or single[m2][0] != 'val':
+            continue
+        seq = single[m1][1] + single[m2][1]
+        expr = '(%s, %s)' % (m1, m2)
+        acc.case(len(seq) > 1)
+        for t in TREAT_TYPES:
+            ref = run('$v instance of %s' % t, v=seq)
+            if ref[0] != 'val':
+                continue
+            want = ref[1][0]
+            case = {'kind': 'treat-expressions', 'ver': ver}
+            r1 = run('%s instance of %s' % (expr, t))
+            r2 = run('%s treat as %s' % (expr, t))
+            acc.ev(3)
+            acc.cmp()
+            if r1 != ('val', [want]):
+                acc.violation('C18|instance-of|sequence-constructor-operand|%s' % ('true-instead-of-false' if r1 == ('val', [True]) else 'false-instead-of-true' if r1 == ('val', [False]) else r1[0]),
+                              '%s: %s instance of %s' % (ver, expr, t), {'expected': want, 'observed': repr(r1)[:100]}, case)
+            if want:
+                same = r2[0] == 'val' and len(r2[1]) == len(seq) and all(x is y or (not hasattr(x, 'position') and x == y) for x, y in zip(r2[1], seq))
+                acc.outcome('treat-expr:' + ('same' if same else 'different'))
+                if not same:
+                    acc.violation('C18|treat-as|sequence-constructor-operand|value-changed-or-error', '%s: %s treat as %s' % (ver, expr, t),
+                                  {'expected_items': len(seq), 'observed': repr(r2)[:140]}, case)
+            else:
+                acc.outcome('treat-expr:' + (r2[1] if r2[0] == 'err' else r2[0]))
+                if r2 != ('err', 'XPDY0050'):
+                    acc.violation('C18|treat-as|sequence-constructor-operand|%s' % ('value-instead-of-XPDY0050' if r2[0] == 'val' else r2[0]), '%s: %s treat as %s' % (ver, expr, t),
+                                  {'observed': repr(r2)[:140]}, case)
+    acc.sample({'version': ver, 'expression': '(b/c, c) treat as element()+', 'context_item': '<a id="i"><b><c/></b><c/>t<b/></a>'}, limit=1)
 
 
 def run_matching(unit, tier, acc):
@@ -385,12 +449,16 @@ def run_unit(unit, tier, acc):
         run_matching(unit, tier, acc)
     elif k == 'subtyping':
         run_subtyping(unit, tier, acc)
+    elif k == 'treat-expressions':
+        run_treat_expressions(unit, tier, acc)
     else:
         run_signatures(unit, tier, acc)
 
 
 def replay(case, acc):
     k = case['kind']
+    if k == 'treat-expressions':
+        return run_treat_expressions(case, 'quick', acc)
     if k == 'matching':
         for q in range(16):
             run_matching({'part': q, 'parts': 16}, 'quick', acc)
